@@ -3,6 +3,7 @@
    (extract_delivers, extract failure clauses, info_reports_header).  C01's and C12's
    theorems (RoundTrip.rt_open / rt_list, LinearRoundTrip.linear_roundtrip,
    ArchiveProofs.lower_write_ok, load_config_enc, load_config_plain) are USED, not re-proved. *)
+From MLA Require Import Limit.
 From MLA Require Import Base Stream EncLayer EncLayerProofs CompLayer CompLayerProofs RawLayer RawLayerProofs
   CompWriterProofs LayerStack Blocks Writer WriterProofs Reader EncWriter EncWriterProofs Format FormatProofs Ecies
   RoundTripBlocks RoundTripWriter RoundTripReader RoundTripRun RoundTrip Archive ArchiveProofs
@@ -13,6 +14,7 @@ Open Scope N_scope.
 (* ------------------------------------------------------------------ the header through a stream *)
 Section HeaderS.
   Variable LIMIT : N.
+  Local Hint Extern 0 Limit => exact LIMIT : typeclass_instances.
   Variable S : Stream.
   Variable a : bytes.
   Variable R : st S -> N -> Prop.
@@ -142,6 +144,7 @@ End HeaderS.
 (* ------------------------------------------------------------------ the layer stack over any source *)
 Section StackG.
   Variables CHUNK TAG CIPHERBUF BLOCK LIMIT FNMAX : N.
+  Local Hint Extern 0 Limit => exact LIMIT : typeclass_instances.
   Variables TS TC TA TE : N.
   Variable H : bytes -> bytes.
   Variable order : footer -> footer.
@@ -237,6 +240,7 @@ End StackG.
 
 (* ------------------------------------------------------------------ export map, by name *)
 Section ByName.
+  Context {LIM : Limit}.
   Variable d : bytes -> fdecision.
   Let dec' : nat -> bytes -> fdecision := fun _ nm => d nm.
   Definition acc_name (nm : bytes) : bool := accepts dec' 0 nm.
@@ -300,6 +304,7 @@ Proof. intros H. unfold name_in. apply existsb_exists. exists nm. split; [exact 
 (* ------------------------------------------------------------------ C20, reading side, end to end *)
 Section Main.
   Variables CHUNK TAG CIPHERBUF BLOCK LIMIT FNMAX : N.
+  Local Hint Extern 0 Limit => exact LIMIT : typeclass_instances.
   Variables TS TC TA TE : N.
   Variable H : bytes -> bytes.
   Variable order : footer -> footer.
@@ -397,11 +402,12 @@ Section Main.
     - unfold Archive.archive_write. rewrite Hne. unfold dump_header. fold hp.
       destruct (N.ltb_spec LIMIT (config_size hp)) as [?|_]; [lia|]. cbn [bind].
       rewrite Hrun. rewrite (first_bad_ok rs Hok). cbn [bind].
-      rewrite (lower_write_ok CHUNK TAG CIPHERBUF BLOCK LIMIT H pubk dh kdf wenc wdec wtag ksf tagf dec
+      rewrite (lower_write_ok CHUNK TAG CIPHERBUF BLOCK LIMIT FNMAX H pubk dh kdf wenc wdec wtag ksf tagf dec
                  HCHUNK HTAG HCB HB HB32 HHlen wdec_wenc Hpubk Hwenc Hwtag).
       + reflexivity.
       + intros Ec. destruct (Hc Ec) as (_ & _ & _ & H32 & _). exact H32.
       + intros Ee. destruct (He Ee) as (_ & _ & _ & Hch & _). exact (proj1 Hch).
+      + intros Ec. destruct (Hc Ec) as (_ & _ & Hlm & _). exact Hlm.
     - assert (Hcfg : (TagCollision pubk dh kdf wenc wtag (wc_eph cfg) (wc_key cfg) (wc_recipients cfg) privs) \/
                      exists k n, load_config dh kdf wdec wtag hp privs = Ok (wc_encrypt cfg, wc_compress cfg, k, n) /\
                                  (wc_encrypt cfg = true -> k = wc_key cfg /\ n = wc_nonce cfg)).
